@@ -5,7 +5,7 @@ Open Scope R_scope.
 
 Lemma ilaws_R2 : ilaws ropsR2 nonnegR.
 Proof. unfold nonnegR.
-  constructor; cbn [ropsR2 c0 c1 cadd cmul csub copp cdiv cinv cconj cgtb vzero vadd vsub vscale vdiv vdot vnrm];
+  constructor; cbn [ropsR2 c0 c1 cadd cmul csub copp cdiv cinv cconj cgtb vzero vadd vsub vscale vdiv vdot vnrm chyp];
     unfold d2; intros; cbn [fst snd]; try reflexivity; try (unfold Rdiv; ring).
   - exact Rfield.
   - apply sqrt_sqrt. nra.
